@@ -44,6 +44,7 @@ def child_env(extra=None, hashseed=os.environ.get("J2M_VERIF_HASHSEED", "0"), wi
         paths.insert(0, os.path.join(VERIF, "sitecustom"))
     env["PYTHONPATH"] = os.pathsep.join(paths)
     env["PYTHONDONTWRITEBYTECODE"] = "1"
+    env.setdefault("PYTHONWARNINGS", "ignore")
     env["J2M_VERIF"] = "1"
     env["J2M_VERIF_REPO"] = REPO
     if hashseed is not None and hashseed != "random":
